@@ -153,3 +153,33 @@ Definition e_pack_var (v : uval) : uval := vopt vbytes (pack_var (getbytes v)).
 Definition e_unpack_var (v : uval) : uval :=
   vopt (fun r => VL [vbytes (fst r); vnat (snd r)]) (unpack_var (getbytes v)).
 Definition e_bit_next (v : uval) : uval := vN (bit_next (getN v)).
+
+(* ---- C06 / C08 ---- *)
+From PV Require Import Model.ParamSet Spec.C08 Spec.C06.
+Definition gettriple (v : uval) : triple := mkTriple (getZ (arg 0 v)) (getZ (arg 1 v)) (getZ (arg 2 v)).
+Definition vtriple (t : triple) : uval := VL [VZ (tv t); VZ (tlo t); VZ (thi t)].
+Definition getpev (v : uval) : pev :=
+  match getN (arg 0 v) with 0%N => Tick | _ => Report (gettriple (arg 1 v)) end.
+Definition vpout (o : pout) : uval :=
+  match o with
+  | OSet r => VL [vN 0; VZ r] | ORefresh => VL [vN 1] | ORet b => VL [vN 2; vbool b] | ORaise => VL [vN 3]
+  end.
+Definition getpout (v : uval) : pout :=
+  match getN (arg 0 v) with
+  | 0%N => OSet (getZ (arg 1 v)) | 1%N => ORefresh | 2%N => ORet (getbool (arg 1 v)) | _ => ORaise
+  end.
+Definition gettracking (v : uval) : nat -> bool := fun i => nth i (map getbool (getL v)) false.
+
+(* [tracking; triple; req; retries; events] -> [outputs per point; triple held at the end] *)
+Definition e_run_set (v : uval) : uval :=
+  let r := run_set (gettracking (arg 0 v)) (gettriple (arg 1 v)) (getZ (arg 2 v)) (getnat (arg 3 v))
+                   (map getpev (getL (arg 4 v))) in
+  VL [vlist (vlist vpout) (fst r); vtriple (vals (snd r))].
+(* [tracking; triple; req; retries; events; observed outputs per point] *)
+Definition e_P08 (v : uval) : uval :=
+  vbool (P08 (gettracking (arg 0 v)) (gettriple (arg 1 v)) (getZ (arg 2 v)) (getnat (arg 3 v))
+             (map getpev (getL (arg 4 v))) (map (fun o => map getpout (getL o)) (getL (arg 5 v)))).
+(* [triple; req; observed outputs per point; triple held after the call] *)
+Definition e_P06 (v : uval) : uval :=
+  vbool (P06 (gettriple (arg 0 v)) (getZ (arg 1 v)) (map (fun o => map getpout (getL o)) (getL (arg 2 v)))
+             (gettriple (arg 3 v))).
